@@ -760,7 +760,7 @@ pub fn run_c10(args: &Args, run: &mut Run) -> (Partial, u64, String) {
     }
     let mut sizes: Vec<u64> = menu_names.iter().map(|n| store.lock().unwrap().content[n].0.len() as u64).collect();
     sizes.sort();
-    let thresholds: Vec<u64> = vec![0, sizes[0] + sizes[1] + 1, sizes[sizes.len() - 1] + sizes[sizes.len() - 2] + 1, 1 << 26];
+    let thresholds: Vec<u64> = vec![0, sizes[0] + sizes[1] + 1, sizes[sizes.len() - 1] + sizes[sizes.len() - 2] + 1, 1 << 26, u64::MAX];
     run.set("menu", json!(mn.iter().map(|m| m.describe()).collect::<Vec<_>>()));
     run.set("thresholds", json!(thresholds));
 
@@ -859,8 +859,8 @@ pub fn run_c10(args: &Args, run: &mut Run) -> (Partial, u64, String) {
     run.assume("difference(first, second) is encoded as the code documents it: the records of the SECOND shard whose keys are not in the first");
     run.assume("two records with the same key agree on every piece both carry (same segments; same verification / metadata where both have it), as set_operations.rs states; a file on both sides must come out with the union of the optional pieces");
     run.assume("directory states are materialised in a fresh directory per consolidation (file bytes + explicit mtimes), which is equivalent to replaying the history because consolidation reads only names, bytes and mtimes; files a consolidation creates or rewrites become the newest, in returned order");
-    run.assume("thresholds explored: 0, one that merges only the two smallest menu shards, one that merges any two menu shards but not more, 64 MiB; u64::MAX is excluded because the function pre-allocates three buffers of the threshold size");
+    run.assume("thresholds explored: 0, one that merges only the two smallest menu shards, one that merges any two menu shards but not more, 64 MiB, u64::MAX (no limit)");
     let evals = all.get("set_operations") + transitions;
-    let rule = "part 1: every ordered pair (incl. identical) of the shard family (subsets of files A,B[,C] with B sharing A's truncated key x flag patterns incl. mixed ones x xorb subsets, extreme-key shards, collision runs whose unions hold 7 and 8 records per truncated key, the empty shard) through shard_set_union/difference, shard_file_union/difference and MDBInMemoryShard::union/difference, each result scanned and every key of either input plus absent keys looked up; part 2: breadth-first search from the empty directory over {write menu shard at every mtime slot or tied with the newest, consolidate at 4 thresholds}, frontier deduplicated by (file names, mtime order), every consolidation executed by the real code in a fresh directory; a case is distinct non-trivial when the pair of serialized inputs is new and the union is non-empty".to_string();
+    let rule = "part 1: every ordered pair (incl. identical) of the shard family (subsets of files A,B[,C] with B sharing A's truncated key x flag patterns incl. mixed ones x xorb subsets, extreme-key shards, collision runs whose unions hold 7 and 8 records per truncated key, the empty shard) through shard_set_union/difference, shard_file_union/difference and MDBInMemoryShard::union/difference, each result scanned and every key of either input plus absent keys looked up; part 2: breadth-first search from the empty directory over {write menu shard at every mtime slot or tied with the newest, consolidate at 5 thresholds incl. u64::MAX}, frontier deduplicated by (file names, mtime order), every consolidation executed by the real code in a fresh directory; a case is distinct non-trivial when the pair of serialized inputs is new and the union is non-empty".to_string();
     (all, evals, rule)
 }
